@@ -65,17 +65,20 @@ def index (s : AL) (index : Int) : Except Err (Option (Nat × Val)) := do
     let v ← rd s.nodes i
     pure (some (i, v))
 
+/-- one iteration of the search loop of `find` (`r` = already found) -/
+def findStep (a : Store) (idx : Nat) (data : Val) (r : Option Nat) (k : Nat) :
+    Except Err (Option Nat) :=
+  match r with
+  | some j => pure (some j)
+  | none => do
+    let v ← rd a (idx + k)
+    pure (if v = data then some (idx + k) else none)
+
 /-- `muggle_array_list_find` with a comparison callback that is equality of the data -/
 def find (s : AL) (index : Int) (data : Val) : Except Err (Option Nat) :=
   match getIndex s.size index with
   | none => pure none
-  | some idx =>
-    (List.range (s.size - idx)).foldlM (fun (r : Option Nat) k =>
-      match r with
-      | some j => pure (some j)
-      | none => do
-        let v ← rd s.nodes (idx + k)
-        pure (if v = data then some (idx + k) else none)) none
+  | some idx => (List.range (s.size - idx)).foldlM (findStep s.nodes idx data) none
 
 /-- the growth step at the start of insert/append -/
 def growIfFull (s : AL) : Except Err (AL × Bool) :=
@@ -152,13 +155,13 @@ def specPos (l : List Val) (i : Int) : Option Nat :=
 /-- insert before the addressed element -/
 def specInsert (l : List Val) (i : Int) (v : Val) : List Val × Option Nat :=
   match specPos l i with
-  | some k => (l.take k ++ v :: l.drop k, some k)
+  | some k => (l.insertIdx k v, some k)
   | none => (l, none)
 
 /-- insert after the addressed element -/
 def specAppend (l : List Val) (i : Int) (v : Val) : List Val × Option Nat :=
   match specPos l i with
-  | some k => if l = [] then ([v], some 0) else (l.take (k + 1) ++ v :: l.drop (k + 1), some (k + 1))
+  | some k => if l = [] then ([v], some 0) else (l.insertIdx (k + 1) v, some (k + 1))
   | none => (l, none)
 
 def specRemove (l : List Val) (i : Int) (fr : Bool) : List Val × Bool × List Val :=
@@ -181,5 +184,65 @@ def specFind (l : List Val) (i : Int) (v : Val) : Option Nat :=
 
 def specClear (l : List Val) (fr : Bool) : List Val × List Val :=
   ([], if fr then l.filter (· ≠ 0) else [])
+
+/-! ## Operation histories -/
+
+inductive Op where
+  | insert (i : Int) (v : Val)
+  | append (i : Int) (v : Val)
+  | remove (i : Int) (fr : Bool)
+  | get (i : Int)
+  | find (i : Int) (v : Val)
+  | clear (fr : Bool)
+  | ensure (c : Nat)
+  | dump
+  deriving Repr, DecidableEq
+
+/-- what a caller observes of one call (node offsets, booleans, callback log, contents) -/
+inductive Res where
+  | pos (r : Option Nat)
+  | removed (ok : Bool) (freed : List Val)
+  | cell (r : Option (Nat × Val))
+  | found (r : Option Nat)
+  | cleared (freed : List Val)
+  | ensured
+  | contents (size : Nat) (l : List Val)
+  deriving Repr, DecidableEq
+
+/-- one API call on the model -/
+def step (s : AL) : Op → Except Err (AL × Res)
+  | .insert i v => do let (s, r) ← insert s i v; pure (s, .pos r)
+  | .append i v => do let (s, r) ← append s i v; pure (s, .pos r)
+  | .remove i fr => do let (s, ok, f) ← remove s i fr; pure (s, .removed ok f)
+  | .get i => do let r ← index s i; pure (s, .cell r)
+  | .find i v => do let r ← find s i v; pure (s, .found r)
+  | .clear fr => do let (s, f) ← clear s fr; pure (s, .cleared f)
+  | .ensure c => do let (s, _) ← ensureCapacity s c; pure (s, .ensured)
+  | .dump => do let c ← contents s; pure (s, .contents s.size c)
+
+/-- the same call on the reference sequence -/
+def specStep (l : List Val) : Op → List Val × Res
+  | .insert i v => let (l', r) := specInsert l i v; (l', .pos r)
+  | .append i v => let (l', r) := specAppend l i v; (l', .pos r)
+  | .remove i fr => let (l', ok, f) := specRemove l i fr; (l', .removed ok f)
+  | .get i => (l, .cell (specIndex l i))
+  | .find i v => (l, .found (specFind l i v))
+  | .clear fr => let (l', f) := specClear l fr; (l', .cleared f)
+  | .ensure _ => (l, .ensured)
+  | .dump => (l, .contents l.length l)
+
+def run (s : AL) : List Op → Except Err (AL × List Res)
+  | [] => .ok (s, [])
+  | op :: ops => do
+    let (s1, r) ← step s op
+    let (s2, rs) ← run s1 ops
+    pure (s2, r :: rs)
+
+def specRun (l : List Val) : List Op → List Val × List Res
+  | [] => (l, [])
+  | op :: ops =>
+    let (l1, r) := specStep l op
+    let (l2, rs) := specRun l1 ops
+    (l2, r :: rs)
 
 end MgModel.C11.AL
